@@ -26,10 +26,12 @@ def crc_lemmas():
     ensures("inj", bv_lemma("inj"))
     ensures("b3", bv_lemma("b3"))
     ensures("zero-state", bv_lemma("zero-state"))
+    ensures("table-step", bv_lemma("table-step"))      # table-driven update (as in crcmod) == bit-serial step, all states and octets
 
 
 @lemma(["C04"], "crc16/crcmod-agrees", native_only=True,
-       bounded="crcmod 'crc-ccitt-false' compared with the bit-serial reference on the catalogue check value and 3000 seeded random strings")
+       bounded="crcmod 'crc-ccitt-false' vs the bit-serial reference: its complete 256-entry table, one-octet updates from the register "
+               "states (quick: every 16th state x 6 octets, thorough: all 2^24), the catalogue check value and 3000 seeded random strings")
 def crcmod_agrees():
     import random
     from crcmod.predefined import mkPredefinedCrcFun, PredefinedCrc
@@ -49,6 +51,17 @@ def crcmod_agrees():
         inc = inc and c.crcValue == f(m)
     ensures("random-strings", ok)
     ensures("incremental-update", inc)
+    # crcmod's own table, all 256 entries, against the table computed from the bit-serial step (with the lemma table-step this
+    # leaves only crcmod's byte loop itself to the sampled comparisons)
+    ensures("crcmod-table-complete", list(PredefinedCrc("crc-ccitt-false").table) == crc_lemmas.table_py())
+    # one-octet update of crcmod from EVERY register state (thorough tier: every state x every octet; quick: every 16th state)
+    stride = by_tier(16, 1)
+    single = True
+    for s0 in range(0, 65536, stride):
+        for b0 in (range(256) if stride == 1 else (0, 1, 0x80, 0xFF, s0 & 0xFF, (s0 >> 8) & 0xFF)):
+            if f(bytes([b0]), s0) != crc_lemmas.step_py(s0, b0):
+                single = False
+    ensures("crcmod-single-octet-update", single)
     for name in ("res-iff", "lin", "inj", "b3", "zero-state"):
         ensures("native-" + name, bv_lemma(name))
 
